@@ -754,3 +754,36 @@ pub fn two_step<const N: usize, const P: u32, S: Src>(s: &mut S) {
     finish::<N, P>(buf, &m, &held, Created { contents: len, items: 0, sources: 0, made: 0 });
     let _ = items;
 }
+
+// ------------------------------------------------------------------ Extend<&T> for Copy elements
+
+/// `extend(iter of &u8)`: appends copies, evicting from the front (byte buffer, byte model)
+pub fn extend_ref<const N: usize, const P: u32, S: Src>(s: &mut S) {
+    let crate::state::BSt { mut buf, mut m, rot } = crate::state::build_u8::<N, S>(s);
+    let k = s.usize();
+    s.assume(k <= 2 * N + 1 && k <= crate::model::CAP);
+    let mut src = [0u8; crate::model::CAP];
+    let mut i = 0;
+    while i < k {
+        src[i] = s.u8();
+        i += 1;
+    }
+    cov!(k > N, "extend(&T) longer than the capacity");
+    cov!(k > 0 && k < N && rot + m.len + k > N, "extend(&T) wrapping around the array end");
+    buf.extend(src[..k].iter());
+    let mut i = 0;
+    while i < k {
+        m.push_back(src[i]);
+        i += 1;
+    }
+    chk!(buf.len() == m.len, "extend(&T): length as specified");
+    let mut i = 0;
+    while i <= N {
+        match buf.get(i) {
+            Some(v) => chk!(i < m.len && *v == m.a[i], "extend(&T): old elements then the copies, last N kept, in order"),
+            None => chk!(i >= m.len, "extend(&T): no element is missing"),
+        }
+        i += 1;
+    }
+    chk!(buf.iter().len() == m.len, "extend(&T): iter() length agrees");
+}
